@@ -390,6 +390,18 @@ func memoryCandidateCond(a Atom) (string, bool) {
 			}
 		}
 	}
+	for _, v := range []ssa.Value{a.X, a.Y} {
+		for {
+			if ct, ok := v.(*ssa.ChangeType); ok {
+				v = ct.X
+				continue
+			}
+			break
+		}
+		if tn, f, ok := fieldOfLoad(v); ok && tn == "Envelope" && (f == "State" || f == "Route" || f == "Target") {
+			return "item." + f + " " + a.Op.String() + " …", true
+		}
+	}
 	switch {
 	case isNilConst(a.Y): // env == nil
 		return desc, true
@@ -689,8 +701,14 @@ func checkDispatcherNoDrop(c *Ctx, rule string) {
 				stop[ci.Block()] = true
 			}
 			okIter := true
+			body := loopBody(h)
+			for _, b := range loopFn.Blocks {
+				if !body[b] {
+					stop[b] = true
+				}
+			}
 			for _, s := range h.Succs {
-				if stop[s] && s != h {
+				if (stop[s] && s != h) || !body[s] {
 					continue
 				}
 				par := reach([]*ssa.BasicBlock{s}, nil, stop)
